@@ -34,6 +34,7 @@ func checkC20(ctx *Ctx, r *Report) {
 	c20DispatchReached(ctx, r)
 	cfgNilEntries(ctx, r)
 	c20UnionsNonEmptyInSchemas(ctx, r)
+	c20ThirdHunt(ctx, r)
 }
 
 // ---------------------------------------------------------------------------
@@ -226,10 +227,11 @@ func c20StrictHelper(ctx *Ctx, r *Report) {
 		// constants, hints — `true` in the published schemas): the walk follows the target type and stops at interfaces
 		stops := false
 		if sfd != nil && sfd.Body != nil {
-			ast.Inspect(sfd.Body, func(n ast.Node) bool {
-				is, ok := n.(*ast.IfStmt)
+			// a statement of the function itself (what a case of the switch does for the items of a list is another clause)
+			for _, top := range sfd.Body.List {
+				is, ok := top.(*ast.IfStmt)
 				if !ok {
-					return true
+					continue
 				}
 				if strings.Contains(exprString(is.Cond), "reflect.Interface") {
 					for _, st := range is.Body.List {
@@ -238,8 +240,7 @@ func c20StrictHelper(ctx *Ctx, r *Report) {
 						}
 					}
 				}
-				return true
-			})
+			}
 		}
 		// a key left without a value (`builders: ~`, an empty `passes:`): yaml.v3 gives the zero value, so the loader
 		// accepts it; the published schemas type those keys array / object / string. Either the shape check refuses a
@@ -1180,4 +1181,215 @@ func c20UnionsNonEmptyInSchemas(ctx *Ctx, r *Report) {
 	}
 	r.Count("union definitions of the configuration schemas", n)
 	r.Floor("union definitions of the configuration schemas", 4)
+}
+
+// c20ThirdHunt:
+//   - the shape check of the strict decoder follows what the decoder follows: an alias is checked as what it stands for,
+//     the value of a merge key (`<<`) as keys of the mapping that holds it; a list of free-form values is not looked into;
+//   - a field of a configuration struct that the loader can't do without — it is handed as is to
+//     ObjectReferenceFromString / FieldReferenceFromString, which refuse the empty string, or validated with
+//     ast.Type.Validate, which refuses the zero type — is tagged `jsonschema:"required"`, and the published schema lists
+//     it under `required`;
+//   - a definition of the published veneers schema that has `by_*` keys (a selector, or a rule that carries its selector
+//     inline) demands one of them.
+func c20ThirdHunt(ctx *Ctx, r *Report) {
+	yp := ctx.Pkg("internal/yaml")
+	if yp == nil {
+		r.Undecided("anchor lost: internal/yaml")
+		return
+	}
+	info := yp.TypesInfo
+	// (a)
+	if fn := ctx.LookupFunc("internal/yaml", "checkDocumentShape"); fn == nil {
+		r.Undecided("anchor lost: yaml.checkDocumentShape")
+	} else if fd, _ := ctx.DeclOf(fn); fd != nil {
+		alias, merge, freeForm := false, false, false
+		ast.Inspect(fd.Body, func(m ast.Node) bool {
+			cc, ok := m.(*ast.CaseClause)
+			if !ok {
+				return true
+			}
+			kinds := ""
+			for _, e := range cc.List {
+				kinds += exprString(e) + " "
+			}
+			ast.Inspect(cc, func(k ast.Node) bool {
+				switch x := k.(type) {
+				case *ast.CallExpr:
+					if strings.Contains(kinds, "AliasNode") && callee(info, x) == fn && len(x.Args) == 2 && strings.HasSuffix(exprString(x.Args[0]), ".Alias") {
+						alias = true
+					}
+				case *ast.IfStmt:
+					c := exprString(x.Cond)
+					if strings.Contains(kinds, "MappingNode") && strings.Contains(c, "!!merge") {
+						// the merged mappings are checked against the type of the mapping itself
+						ast.Inspect(x.Body, func(q ast.Node) bool {
+							if call, ok := q.(*ast.CallExpr); ok && len(call.Args) == 2 && exprString(call.Args[1]) == "target" {
+								merge = true
+							}
+							return true
+						})
+					}
+					if strings.Contains(kinds, "SequenceNode") && strings.Contains(c, "reflect.Interface") && endsInExit(x.Body) {
+						freeForm = true
+					}
+				}
+				return true
+			})
+			return false
+		})
+		r.Count("hunted clauses of the strict decoder (3rd hunt)", 3)
+		r.Check(alias, "cfgschema/shape-follows-aliases", "yaml.checkDocumentShape checks what an alias stands for", fd.Pos(), "the alias case recurses on node.Alias",
+			"checkDocumentShape leaves aliases alone: `- *pass` where `&pass {unspec: {}, ~: injected}` is anchored inside a free-form value loads, with the null key dropped by the decoder")
+		r.Check(merge, "cfgschema/shape-follows-aliases", "yaml.checkDocumentShape checks the mappings brought by a merge key", fd.Pos(), "the value of `<<` is checked against the type of the mapping that holds it",
+			"checkDocumentShape checks the value of `<<` as the member `<<` of the target type — there is none, so nothing is checked: `passes: [{<<: {unspec: {}, ~: injected}}]` loads")
+		r.Check(freeForm, "cfgschema/strict-shape-type-directed", "yaml.checkDocumentShape leaves lists of free-form values alone", fd.Pos(), "a list whose items are `any` is not looked into",
+			"checkDocumentShape refuses a null item before it asks what the items are: `args: [~]` (a list of free-form values, `items: true` in the published schema) is refused with `empty list entry`")
+	}
+	// (b)
+	defs := map[string]map[string]any{}
+	for _, file := range []string{"schemas/compiler_passes.json", "schemas/veneers.json", "schemas/pipeline.json"} {
+		data, err := os.ReadFile(filepath.Join(ctx.Repo, file))
+		if err != nil {
+			r.Undecided("cannot read %s: %v", file, err)
+			return
+		}
+		var doc map[string]any
+		if err := json.Unmarshal(data, &doc); err != nil {
+			r.Undecided("cannot parse %s: %v", file, err)
+			return
+		}
+		raw, _ := doc["$defs"].(map[string]any)
+		for k, v := range raw {
+			if m, ok := v.(map[string]any); ok {
+				defs[file+"#"+normName(k)] = m
+				defs[normName(k)] = m
+			}
+		}
+	}
+	requiredIn := func(def map[string]any, key string) bool {
+		list, _ := def["required"].([]any)
+		for _, k := range list {
+			if k == key {
+				return true
+			}
+		}
+		return false
+	}
+	keyOf := func(f *types.Var, tag string) string {
+		name, _, _ := strings.Cut(reflect.StructTag(tag).Get("yaml"), ",")
+		if name == "" {
+			name = strings.ToLower(f.Name())
+		}
+		return name
+	}
+	n := 0
+	needed := func(st *types.Struct, nt *types.Named, f *types.Var, why string, pos token.Pos) {
+		tag := ""
+		for i := 0; i < st.NumFields(); i++ {
+			if st.Field(i) == f {
+				tag = st.Tag(i)
+			}
+		}
+		n++
+		tagged := strings.Contains(reflect.StructTag(tag).Get("jsonschema"), "required")
+		cons := fmt.Sprintf("%s.%s is needed by the loader", nt.Obj().Name(), f.Name())
+		r.Check(tagged, "cfgschema/loader-required-keys", cons+" (tag)", pos, "the field is tagged jsonschema:\"required\"",
+			fmt.Sprintf("%s.%s %s, and the struct does not say so: the schema generated from it accepts a file without `%s`, which the loader refuses", nt.Obj().Name(), f.Name(), why, keyOf(f, tag)))
+		if def, ok := defs[defNameOf(nt)]; ok {
+			r.Check(requiredIn(def, keyOf(f, tag)), "cfgschema/loader-required-keys", cons+" (published schema)", pos, "the published definition lists the key under `required`",
+				fmt.Sprintf("the published definition of %s does not list `%s` under `required` (schemas/*.json were not regenerated?): a file without it validates in an editor and does not load", nt.Obj().Name(), keyOf(f, tag)))
+		}
+	}
+	for _, file := range yp.Syntax {
+		for _, d := range file.Decls {
+			fd, ok := d.(*ast.FuncDecl)
+			if !ok || fd.Body == nil || fd.Recv == nil || len(fd.Recv.List) != 1 || len(fd.Recv.List[0].Names) != 1 {
+				continue
+			}
+			recv := info.Defs[fd.Recv.List[0].Names[0]]
+			nt := namedOf(recv.Type())
+			if nt == nil {
+				continue
+			}
+			st, ok := nt.Underlying().(*types.Struct)
+			if !ok {
+				continue
+			}
+			fieldOfRecv := func(e ast.Expr) *types.Var {
+				sel, ok := ast.Unparen(e).(*ast.SelectorExpr)
+				if !ok {
+					return nil
+				}
+				if id, ok := ast.Unparen(sel.X).(*ast.Ident); !ok || objOf(info, id) != recv {
+					return nil
+				}
+				return fieldOf(info, sel)
+			}
+			ast.Inspect(fd.Body, func(m ast.Node) bool {
+				switch x := m.(type) {
+				case *ast.CallExpr:
+					f := callee(info, x)
+					if f == nil {
+						return true
+					}
+					if (f.Name() == "ObjectReferenceFromString" || f.Name() == "FieldReferenceFromString") && len(x.Args) == 1 {
+						if fv := fieldOfRecv(x.Args[0]); fv != nil {
+							needed(st, nt, fv, "is handed to "+f.Name()+", which refuses the empty string", x.Pos())
+						}
+					}
+					if f.Name() == "Validate" {
+						if sel, ok := x.Fun.(*ast.SelectorExpr); ok {
+							if fv := fieldOfRecv(sel.X); fv != nil && namedName(fv.Type()) == "Type" {
+								needed(st, nt, fv, "is validated with ast.Type.Validate, which refuses the zero type", x.Pos())
+							}
+						}
+					}
+				}
+				return true
+			})
+		}
+	}
+	// the package of a veneers file
+	if vt := ctx.LookupType("internal/yaml", "Veneers"); vt != nil {
+		if st, ok := vt.Underlying().(*types.Struct); ok {
+			for i := 0; i < st.NumFields(); i++ {
+				if st.Field(i).Name() == "Package" {
+					needed(st, vt, st.Field(i), "is refused when empty (`missing 'package' statement`)", st.Field(i).Pos())
+				}
+			}
+		}
+	}
+	r.Count("configuration keys the loaders can't do without", n)
+	r.Floor("configuration keys the loaders can't do without", 14)
+	// (c)
+	k := 0
+	names := make([]string, 0, len(defs))
+	for name := range defs {
+		if strings.HasPrefix(name, "schemas/veneers.json#") {
+			names = append(names, name)
+		}
+	}
+	sort.Strings(names)
+	for _, name := range names {
+		def := defs[name]
+		props, _ := def["properties"].(map[string]any)
+		var criteria []string
+		for key := range props {
+			if strings.HasPrefix(key, "by_") {
+				criteria = append(criteria, key)
+			}
+		}
+		if len(criteria) == 0 {
+			continue
+		}
+		k++
+		_, anyOf := def["anyOf"]
+		min, _ := def["minProperties"].(float64)
+		demanded := anyOf || (min >= 1 && len(criteria) == len(props))
+		r.Check(demanded, "cfgschema/inline-selector-demanded", "schemas/veneers.json "+strings.TrimPrefix(name, "schemas/veneers.json#")+" demands a criterion", token.NoPos, "anyOf over the by_* keys (or minProperties when every key is a criterion)",
+			"the definition "+strings.TrimPrefix(name, "schemas/veneers.json#")+" has by_* keys and demands none of them: `options: [{array_to_append: {}}]` validates, and the loader answers `empty selector`")
+	}
+	r.Count("definitions of the veneers schema with selector criteria", k)
+	r.Floor("definitions of the veneers schema with selector criteria", 10)
 }
